@@ -57,6 +57,7 @@ struct leafctl {
   std::atomic<int> state{ST_CREATED};
   std::atomic<bool> claimed{false};
   std::atomic<uint64_t> attempt_seq{0}, start_seq{0}, cseq{0}, claim_seq{0};
+  std::atomic<uint64_t> delivered_seq{0};  // taken after set_value/set_error/set_done returned to the leaf
   std::atomic<int> completions{0};
   std::atomic<int> completed_with{-1};
   std::atomic<bool> saw_stop{false};
@@ -160,6 +161,9 @@ struct mleaf {
         unifex::set_error(std::move(rcvr), std::make_exception_ptr(terr{k->id}));
       else
         unifex::set_done(std::move(rcvr));
+      // only now has the library certainly recorded the result (a future started before this point may still
+      // legitimately win the race for "cancelled before the result was available")
+      k->delivered_seq.store(now(), std::memory_order_release);
     }
   };
 
@@ -271,7 +275,8 @@ void await_future(Fut&& fut, const ctl_ptr& c, rng& r, stats_t& st, bool scope_m
                   std::vector<std::pair<ctl_ptr, uint64_t>>& cancelled_rec) {
   wstate ws;
   bool cancel = r.chance(1, 4);
-  bool result_ready_before = c->state.load(std::memory_order_acquire) == ST_COMPLETED;
+  const uint64_t delivered_before = c->delivered_seq.load(std::memory_order_acquire);
+  bool result_ready_before = delivered_before != 0;
   bool cancel_first = cancel && r.chance(1, 3);
   if (cancel_first)
     ws.src.request_stop();
@@ -322,7 +327,7 @@ void await_future(Fut&& fut, const ctl_ptr& c, rng& r, stats_t& st, bool scope_m
       // a result already available when the future was started must be delivered even if stop was requested
       // (v1: if the whole scope was told to stop first, its attach wrapper legitimately turns the future into done)
       if (!scope_stopped_first && result_ready_before && (leaf_oc == OC_VALUE || leaf_oc == OC_ERROR) &&
-          c->cseq.load() < start_call)
+          delivered_before < start_call)
         violation("C09:future:available-result-dropped-on-cancel",
                   "leaf %d had completed (outcome %d) before the future was started, yet the future completed with done",
                   c->id, leaf_oc);
@@ -603,9 +608,19 @@ void run_history(rng& r, stats_t& st, int W, int C) {
       violation("C08:scope:join-never-completed", "join %d (scope v%d)", j, K);
     ++st.joins;
   }
-  // a future dropped while its operation was still running must have requested stop on it
+  // a future dropped while its operation was still running must have requested stop on it.
+  // (v0/v1: when a scope-wide stop request is in flight as well, the attach wrapper lets only the first of the two
+  //  requests forward the stop to the child; the second returns at once.  A drop that returns while the scope's own
+  //  request has not reached the child yet is therefore legitimate - the stop *has* been requested - and the rule is
+  //  not applied once a scope-wide stop was initiated before the leaf was claimed.)
+  const uint64_t scope_stop_at = stop_call.load(std::memory_order_acquire);
+  auto scope_stop_in_flight = [&](const ctl_ptr& c) {
+    return scope_stop_at != 0 && scope_stop_at < c->claim_seq.load();
+  };
   for (auto& dv : dropped)
     for (auto& [c, dseq] : dv) {
+      if (scope_stop_in_flight(c))
+        continue;
       // claim_seq is taken by the completer before the leaf deregisters its stop callback: if it is later than
       // the drop's return, the callback was registered during the whole drop
       if (c->state.load() == ST_COMPLETED && c->start_seq.load() && c->claim_seq.load() > dseq && !c->saw_stop.load())
@@ -615,6 +630,8 @@ void run_history(rng& r, stats_t& st, int W, int C) {
     }
   for (auto& cv : cancelled)
     for (auto& [c, fseq] : cv) {
+      if (scope_stop_in_flight(c))
+        continue;
       if (c->state.load() == ST_COMPLETED && c->start_seq.load() && c->claim_seq.load() > fseq && !c->saw_stop.load())
         violation("C09:future:cancelled-future-did-not-request-stop", "leaf %d was still running when its cancelled future "
                   "completed with done (at %llu, completer claimed the leaf at %llu) and never saw a stop request", c->id,
